@@ -415,6 +415,9 @@ func (e *Environment) SetNoChecks(name string, val Object, create bool) Object {
 	if ref, ok := e.makeRef(name); ok {
 		log.Debugf("SetNoChecks(%s) created ref %s in %d", name, ref.Name, ref.RefEnv.depth)
 		e.getMiss++ // writing a variable of an enclosing scope is a side effect whatever it holds: not memoizable.
+		if ref.RefEnv.depth == 0 {
+			ref.RefEnv.numSet++ // a global changed (from inside a function): auto save has something to save.
+		}
 		ref.RefEnv.store[ref.Name] = Value(val) // kinda neat to make aliases but it can create loops, so not for now.
 		return val
 	}
